@@ -29,6 +29,9 @@ for q in _q_variants:
         _c04_thorough.append(run("queues", "%s_%s" % (q, r), c=2, opt={"T": 3, "m": 1, "prefill": 1}, weight=1.0))
     # deeper preemption bound on the cheapest reclaimer
     _c04_thorough.append(run("queues", "%s_lfrc" % q, c=3, opt={"prefill": 0}, weight=6.0))
+    # immediate address reuse (ABA hunting) with pointer-, era- and count-based protection
+    for r in ["hp", "he", "lfrc", "ebr"]:
+        _c04_thorough.append(run("queues", "%s_%s" % (q, r), c=2, heap="reuse", weight=1.0))
 PLAN["C04"] = {
     "quick": _c04_quick,
     "thorough": _c04_thorough,
@@ -124,12 +127,20 @@ for r in RECL_ALL:
     _c17_thorough.append(run("reclaim", "proto_" + r, c=2, opt={"ops": 0x6a, "allow_update_only": 1, "gens": 2, "m": 1}, weight=3.0))
     _c17_thorough.append(run("reclaim", "proto_" + r, c=1, opt={"ops": 0x62, "allow_update_only": 1, "gens": 3, "m": 1}, weight=3.0))
     _c17_thorough.append(run("reclaim", "proto_" + r, c=1, opt={"ops": 0x62, "allow_update_only": 1, "gens": 2, "m": 2}, weight=3.0))
+# a thread exits (abandoning what it retired) while another thread is in the middle of a scan and a third one holds a guard (seed C17)
+for r in ["hp", "hpd", "he", "hed"]:
+    _c17_quick.append(run("reclaim", "proto_" + r, c=2, opt={"ops": 0x22, "T": 3, "m": 1}, weight=1.0))
+for r in RECL_ALL:
+    _c17_thorough.append(run("reclaim", "proto_" + r, c=2, opt={"ops": 0x62, "T": 3, "m": 1}, weight=2.0))
+for r in ["hp", "hpd", "he", "hed", "lfrc"]:
+    _c17_thorough.append(run("reclaim", "proto_" + r, c=3, opt={"ops": 0x22, "T": 3, "m": 1}, weight=4.0))
 PLAN["C17"] = {
     "quick": _c17_quick, "thorough": _c17_thorough, "budget_s": {"quick": 170, "thorough": 1500},
     "rule": "G = 2..3 generations of T = 1..2 overlapping threads (fresh pthreads, thread_local reclaimer state constructed and destroyed per thread, destructors explored "
             "as part of the execution), each running an enumerated program of guarded reads / holds / unlink+reclaim; after every generation T0 flushes through the "
             "public API and checks (a) the C01/C02 oracles across record reuse, (b) the census: everything retired so far is destroyed although its retirer has exited, "
-            "(c) live heap allocations not belonging to client nodes <= footprint of T0 + T x (measured footprint of one thread)",
+            "(c) live heap allocations not belonging to client nodes <= footprint of T0 + T x (measured footprint of one thread); in addition three concurrently live threads "
+            "(holder, two unlinkers) with one operation each, so that a thread exits - abandoning what it retired - while another thread is inside a scan",
     "assumptions": ["per-thread footprint is measured on T0 performing the same kinds of guard operations as the workers"],
 }
 LEVEL_TEXT["C17"] = ("all interleavings with <= c preemptions of all enumerated multi-generation thread programs (threads created, exiting and being replaced) for 13 "
@@ -189,7 +200,7 @@ _c06_thorough = [
 ] + [run("kfifo", "kf_" + r, c=2, r=1, opt={"k": 2}, weight=6) for r in ["hp", "hpd", "he", "qsbr", "ebr", "nebr", "debra"]] + [
     run("kfifo", "kf_stamp", c=1, r=1, opt={"k": 2}, weight=2), run("kfifo", "kf_hp", c=3, opt={"k": 1, "prefill": 0}, weight=6),
     run("kfifo", "kf_hp", c=0, r=3, opt={"T": 1, "m": 8, "k": 2, "prefill": 0}),
-]
+] + [run("kfifo", "kf_" + r, c=2, r=1, heap="reuse", opt={"k": 2}, weight=3) for r in ["hp", "he", "ebr"]] + [run("kfifo", "kf_" + r, c=2, heap="reuse", opt={"k": 1, "prefill": 0}, weight=2) for r in ["hp", "he"]]
 PLAN["C06"] = {
     "quick": _c06_quick, "thorough": _c06_thorough, "budget_s": {"quick": 150, "thorough": 1500},
     "rule": "programs: T threads x m operations over {push/try_push, try_pop}, all assignments, prefill 0..2, final drain; k in 1..3, segments 1..3; utils::random() "
@@ -217,6 +228,7 @@ for t in _own_tests:
 for t in ["ram_e1_up_hp", "ram_e2_up_hp", "nik_e1_up_hp", "kf_k1_up_hp", "kb_k1s2_up", "nb_c1_up", "vb_s2_up", "ms_up_hp"]:
     _c07_quick.append(run("ownership", t, c=2, weight=2))
     _c07_thorough.append(run("ownership", t, c=3, opt={"prefill": 1}, weight=6))
+    _c07_thorough.append(run("ownership", t, c=2, heap="reuse", weight=1))
 PLAN["C07"] = {
     "quick": _c07_quick, "thorough": _c07_thorough, "budget_s": {"quick": 150, "thorough": 1500},
     "rule": "programs: T threads x m operations over {push/try_push, try_pop}, all assignments (at least one push), then destruction of the queue WITHOUT draining; "
@@ -388,7 +400,9 @@ _c10_thorough = [run("vy", "map_" + t, c=0, opt={"T": 1, "m": 4, "keys": 5, "cap
     [run("vy", "map_" + t, c=1, opt={"keys": 2, "cap": 1, "ops": 0x27}, weight=2) for t in _vy_modes] + \
     [run("vy", "map_" + t, c=2, opt={"m": 1, "keys": 5, "prefill": 31, "cap": 128, "ops": 0x27}, weight=6) for t in ["tt_i1_hp", "st_s1_hp", "tm_i1_hp", "tn_i1_hp", "sm_s1_hp"]] + \
     [run("vy", "map_" + t, c=1, opt={"m": 1, "T": 3, "keys": 4, "prefill": 7, "cap": 1, "ops": 0x7}, weight=4) for t in ["tt_i1_hp", "st_s1_hp", "tm_i1_hp"]] + \
-    [run("vy", "map_tt_i1_hp", c=1, mode="wmm", d=1, opt={"m": 1, "keys": 5, "prefill": 31, "cap": 128, "ops": 0x7}, weight=3)]
+    [run("vy", "map_tt_i1_hp", c=1, mode="wmm", d=1, opt={"m": 1, "keys": 5, "prefill": 31, "cap": 128, "ops": 0x7}, weight=3)] + \
+    [run("vy", "map_" + t, c=2, heap="reuse", opt={"m": 1, "keys": 5, "prefill": 31, "cap": 128, "ops": 0x27}, weight=3) for t in ["tt_i1_hp", "tt_i1_he", "tn_i1_hp", "tm_i1_hp"]] + \
+    [run("vy", "map_" + t, c=1, heap="reuse", opt={"keys": 2, "cap": 1, "ops": 0x27}, weight=1) for t in ["tt_i1_hp", "tt_i1_he", "tt_i1_ebr", "st_s1_hp", "tm_i1_hp"]]
 PLAN["C10"] = {
     "quick": _c10_quick, "thorough": _c10_thorough, "budget_s": {"quick": 170, "thorough": 1700},
     "rule": "programs: T threads x m operations over subsets of {emplace, erase, try_get_value, find, get_or_emplace, extract} on 2-6 keys that share one bucket "
@@ -439,11 +453,15 @@ PLAN["C15"] = {
              [run("markedptr", "concurrent_ptr_" + r, c=0, weight=0.2) for r in ["hp", "ebr", "lfrc"]] +
              [run("guards", "alg_" + r, c=0, opt={"depth": 3}, weight=2 if r == "stamp" else 1) for r in _alg] +
              [run("guards", "slots_hp_k2", c=0, opt={"depth": 3}), run("guards", "slots_he_k2", c=0, opt={"depth": 3})] +
+             # guards that start on different nodes with different slots / eras (seed C15: swap that does not swap the protection)
+             [run("guards", t, c=0, opt={"depth": 3, "altfill": 1}, weight=0.5) for t in ["alg_hpd", "alg_hed", "slots_hp_k3", "slots_he_k3", "alg_ebr", "alg_lfrc", "alg_stamp"]] +
              [run("guards", "snap_" + r, c=2, weight=1) for r in ["hp", "hpd", "he", "qsbr", "ebr", "nebr", "debra", "lfrc"]] + [run("guards", "snap_stamp", c=1)],
     "thorough": [run("markedptr", "marked_ptr", c=0, plain_horizon=100000000000, wall=1200, opt={"full": 24, "shards": 64}, weight=10),
                  run("markedptr", "marked_ptr", c=0, plain_horizon=1000000000000, wall=2400, opt={"full": 32, "w": 32, "shards": 256}, weight=20)] +
                 [run("guards", "alg_" + r, c=0, opt={"depth": 4}, weight=4 if r == "stamp" else 2) for r in _alg] +
                 [run("guards", "alg_" + r, c=0, opt={"depth": 3, "guards": 3}, weight=2) for r in ["hpd", "ebr", "lfrc"]] +
+                [run("guards", "alg_" + r, c=0, opt={"depth": 4, "altfill": 1}, weight=2) for r in _alg] +
+                [run("guards", t, c=0, opt={"depth": 4, "altfill": 1}, weight=2) for t in ["slots_hp_k3", "slots_he_k3"]] +
                 [run("guards", "snap_" + r, c=3, opt={"replaces": 2, "acquires": 2}, weight=3) for r in ["hp", "he", "ebr", "qsbr", "lfrc"]] +
                 [run("guards", "snap_" + r, c=2, opt={"replaces": 3, "acquires": 3}, weight=3) for r in ["hp", "ebr", "lfrc", "stamp"]] +
                 [run("guards", "snap_" + r, c=2, mode="wmm", d=1, weight=2) for r in ["hp", "he", "ebr", "qsbr"]],
@@ -452,7 +470,8 @@ PLAN["C15"] = {
             "requires): all 2^w mark values for w <= 14 (quick) / 24 and w = 32 (thorough), boundary families (0, all ones, walking one/zero, 2^k+-1) above; get/mark/bool/==/!= / "
             "reset against the (pointer, mark) pair; concurrent_ptr store/load/CAS round trips; guard algebra: all sequences of depth 3-4 over {acquire, acquire_if_equal "
             "(match / mismatch in mark or pointer), reset (twice), copy-assign and move-assign incl. self, swap, reclaim, copy/move-construct, construct from raw pointer} on 2-3 "
-            "guards and 2 cells against a shared-ownership reference model (which guard holds which node and mark, nodes alive while held); snapshot: a thread that keeps "
+            "guards and 2 cells against a shared-ownership reference model (which guard holds which node and mark, nodes alive while held), from empty guards and from guards "
+            "that start on different nodes with different slots / eras (altfill), each sequence closed by an unlink-and-retire storm after which every node still held must be alive; snapshot: a thread that keeps "
             "replacing the cell vs a thread doing acquire / acquire_if_equal, linearizability against an atomic pointer cell",
     "assumptions": ["pointer patterns are representative, not exhaustive (the pointer domain is 2^47)"],
 }
@@ -469,7 +488,10 @@ PLAN["C18"] = {
               run("guards", "slots_he_k3", c=0, opt={"depth": 3, "guards": 4, "fill": 2, "ops": 0x31b}, weight=2),
               run("guards", "slots_he_k5", c=0, opt={"depth": 3, "guards": 7, "fill": 4, "ops": 0x119}, weight=2),
               run("guards", "slots_hpd_k1", c=0, opt={"depth": 3, "guards": 3}), run("guards", "slots_hed_k1", c=0, opt={"depth": 3, "guards": 3}),
-              run("guards", "slots_hp_k1", c=0, opt={"depth": 2, "guards": 2, "gens": 2}), run("guards", "slots_he_k2", c=0, opt={"depth": 2, "guards": 3, "gens": 2})],
+              run("guards", "slots_hp_k1", c=0, opt={"depth": 2, "guards": 2, "gens": 2, "ops": 0x9b}), run("guards", "slots_he_k2", c=0, opt={"depth": 2, "guards": 3, "gens": 2, "ops": 0x99}),
+              # exhaustion in a later era and what follows the refusal (seed C18, finding F-C18-2): slots held in distinct eras
+              run("guards", "slots_he_k1", c=0, opt={"depth": 4, "guards": 2, "fill": 1, "ops": 0x99}), run("guards", "slots_he_k2", c=0, opt={"depth": 4, "guards": 3, "altfill": 1, "ops": 0x99}, weight=2),
+              run("guards", "slots_hp_k2", c=0, opt={"depth": 4, "guards": 3, "altfill": 1, "ops": 0x99})],
     "thorough": [run("guards", "slots_hp_k1", c=0, opt={"depth": 4, "guards": 3}, weight=4), run("guards", "slots_hp_k2", c=0, opt={"depth": 4, "guards": 3}, weight=6),
                  run("guards", "slots_hp_k3", c=0, opt={"depth": 4, "guards": 5, "fill": 2, "ops": 0x31b}, weight=6),
                  run("guards", "slots_hp_k5", c=0, opt={"depth": 4, "guards": 7, "fill": 4, "ops": 0x119}, weight=6),
@@ -477,17 +499,22 @@ PLAN["C18"] = {
                  run("guards", "slots_he_k3", c=0, opt={"depth": 4, "guards": 5, "fill": 2, "ops": 0x31b}, weight=6),
                  run("guards", "slots_he_k5", c=0, opt={"depth": 4, "guards": 7, "fill": 4, "ops": 0x119}, weight=6),
                  run("guards", "slots_hpd_k1", c=0, opt={"depth": 4, "guards": 3}, weight=4), run("guards", "slots_hed_k1", c=0, opt={"depth": 4, "guards": 3}, weight=4),
-                 run("guards", "slots_hp_k2", c=0, opt={"depth": 3, "guards": 3, "gens": 3}, weight=4), run("guards", "slots_he_k2", c=0, opt={"depth": 3, "guards": 3, "gens": 3}, weight=4)],
-    "budget_s": {"quick": 150, "thorough": 1700},
+                 run("guards", "slots_hp_k2", c=0, opt={"depth": 3, "guards": 3, "gens": 3}, weight=4), run("guards", "slots_he_k2", c=0, opt={"depth": 3, "guards": 3, "gens": 3}, weight=4),
+                 run("guards", "slots_he_k1", c=0, opt={"depth": 6, "guards": 2, "fill": 1, "ops": 0x99}, weight=3), run("guards", "slots_he_k2", c=0, opt={"depth": 5, "guards": 3, "altfill": 1, "ops": 0x99}, weight=6),
+                 run("guards", "slots_he_k3", c=0, opt={"depth": 4, "guards": 4, "altfill": 1, "ops": 0x99}, weight=3), run("guards", "slots_hp_k2", c=0, opt={"depth": 5, "guards": 3, "altfill": 1, "ops": 0x99}, weight=4),
+                 run("guards", "slots_hed_k1", c=0, opt={"depth": 5, "guards": 3, "altfill": 1, "ops": 0x99}, weight=3)],
+    "budget_s": {"quick": 170, "thorough": 1700},
     "rule": "one thread, all sequences of depth 3-4 over guard operations {acquire, acquire_if_equal, reset, copy-assign, move-assign, swap, reclaim, copy-construct, construct from "
             "pointer} on K+1..K+2 guard variables (K in 1,2,3,5; for K>=3 the first guards are pre-filled and the alphabet reduced), static and dynamic strategies, hazard "
             "pointers and hazard eras, optionally repeated in 2-3 successive threads that reuse the control block; reference model counts protecting guards: an operation that "
-            "needs no new slot must not throw, with hazard pointers one that needs more than K must throw bad_hazard_pointer_alloc (hazard eras may share an entry, so they may "
-            "or may not throw), the dynamic strategy never throws; after every step (also after an exception) every guard refers to its node, nodes are alive; afterwards K "
-            "guards can be held at once and repeated acquire/reset never exhausts the slots",
+            "needs no new slot must not throw, with hazard pointers one that needs more than K must throw bad_hazard_pointer_alloc (hazard eras may share an entry between guards of one era: the model tracks "
+            "the era of every guard - one era step per retirement - and demands bad_hazard_era_alloc when the other guards already hold K distinct eras none of which is the "
+            "current one, otherwise they may or may not throw), the dynamic strategy never throws; after every step every guard refers to its node and the node is alive; a "
+            "refused acquire leaves the guard unchanged or empty; every sequence ends with an unlink-and-retire storm after which every node still held must be alive; "
+            "afterwards K guards can be held at once and repeated acquire/reset never exhausts the slots",
     "assumptions": [],
 }
-LEVEL_TEXT["C18"] = ("exhaustive enumeration of guard operation sequences to depth 3-4 for K in {1,2,3,5}, hazard pointers and hazard eras, static and dynamic strategy, with thread exit and "
+LEVEL_TEXT["C18"] = ("exhaustive enumeration of guard operation sequences to depth 3-4 (4-6 over a reduced alphabet with slots held in distinct eras) for K in {1,2,3,5}, hazard pointers and hazard eras, static and dynamic strategy, with thread exit and "
                      "control-block reuse, against a slot-counting reference model")
 
 # ------------------------------------------------------------------------------------------------- C03
